@@ -138,4 +138,24 @@ theorem scaled_discriminant_lower (f1 f2 f3 : Rat) (h : f1 * f2 < 0) :
       rw [min_eq_right hle]
       nlinarith [abs_nonneg (f2 * c)]
 
+/-- **scaled_values_lt_one**: because the exponent is taken from the largest of the THREE magnitudes
+    (midpoint value included), every scaled value satisfies `|g_i| < 1`: `ldexp(f_i, -exponent)` cannot
+    overflow, whatever the ratio between the midpoint value and the end values (a scale taken from the
+    end values alone would let `g3` overflow when the function's interior lies hundreds of decades above
+    its tails). -/
+theorem scaled_values_lt_one (f1 f2 f3 : Rat) (h : f1 * f2 < 0) :
+    |f1 * ridderScale f1 f2 f3| < 1 ∧ |f2 * ridderScale f1 f2 f3| < 1 ∧ |f3 * ridderScale f1 f2 f3| < 1 := by
+  have hc : 0 < ridderScale f1 f2 f3 := ridderScale_pos f1 f2 f3
+  obtain ⟨_, m2⟩ := scaled_max_in_half_one f1 f2 f3 h
+  rw [rmax_eq_max, rmax_eq_max, rabs_eq_abs, rabs_eq_abs, rabs_eq_abs] at m2
+  have ac : ∀ x : Rat, |x * ridderScale f1 f2 f3| = |x| * ridderScale f1 f2 f3 := fun x => by
+    rw [abs_mul, abs_of_pos hc]
+  have le3 : |f3| ≤ max |f3| (max |f1| |f2|) := le_max_left _ _
+  have le1 : |f1| ≤ max |f3| (max |f1| |f2|) := le_trans (le_max_left _ _) (le_max_right _ _)
+  have le2 : |f2| ≤ max |f3| (max |f1| |f2|) := le_trans (le_max_right _ _) (le_max_right _ _)
+  refine ⟨?_, ?_, ?_⟩
+  · rw [ac]; exact lt_of_le_of_lt (mul_le_mul_of_nonneg_right le1 (le_of_lt hc)) m2
+  · rw [ac]; exact lt_of_le_of_lt (mul_le_mul_of_nonneg_right le2 (le_of_lt hc)) m2
+  · rw [ac]; exact lt_of_le_of_lt (mul_le_mul_of_nonneg_right le3 (le_of_lt hc)) m2
+
 end Lp.C02
